@@ -323,7 +323,7 @@ def conv_check(rep: Report, fi: FuncInfo, what: str, expr: ast.AST, var: str, wa
 
 #: the uniform draws handed to the evaluated forward (flip where the draw is below the probability 0.5) and its inputs
 BSC_DRAWS = [[0.1, 0.9, 0.3, 0.7], [0.8, 0.2, 0.6, 0.4]]
-BSC_INPUTS = ([[0, 1, 1, 0], [1, 0, 0, 1]], [[1, 1, 1, 1], [0, 0, 0, 0]], [[0, 0, 1, 1], [0, 1, 0, 1]])
+BSC_INPUTS = ([[0, 1, 1, 0], [1, 0, 0, 1]], [[1, 1, 1, 1], [0, 0, 0, 0]], [[0, 0, 1, 1], [0, 1, 0, 1]], [[1, 1, 1, 1], [1, 1, 1, 1]], [[0, 0, 0, 0], [0, 0, 0, 0]])  # the last two: blocks of one symbol only
 
 
 def bsc_evaluated(rep: Report, fi: FuncInfo) -> Optional[int]:
@@ -351,6 +351,8 @@ def bsc_evaluated(rep: Report, fi: FuncInfo) -> Optional[int]:
     scope.__enter__()
     for bits in BSC_INPUTS:
         for bipolar in (False, True):
+            if bipolar and all(b == 1 for r in bits for b in r):
+                continue  # a block of ones holds no -1: its only reading is {0,1}
             x = [[(2 * b - 1 if bipolar else b) * 1.0 for b in r] for r in bits]
             want = [[(b ^ (1 if d < 0.5 else 0)) for b, d in zip(r, dr)] for r, dr in zip(bits, BSC_DRAWS)]
             want = [[(2 * b - 1 if bipolar else b) for b in r] for r in want]
@@ -376,7 +378,7 @@ def bsc_evaluated(rep: Report, fi: FuncInfo) -> Optional[int]:
     if bad:
         rep.violation("TRANSITION", fi, construct, "the output is not the input with the drawn positions exchanged for the other symbol of the input's alphabet: " + "; ".join(bad[:2]), node=fi.node)
     else:
-        rep.ok("TRANSITION", fi, construct, f"{2 * len(BSC_INPUTS)} words: a symbol changes exactly where the draw is below the probability, and stays in the input's alphabet ({{0,1}} or {{-1,+1}})", node=fi.node)
+        rep.ok("TRANSITION", fi, construct, f"{2 * len(BSC_INPUTS) - 1} words: a symbol changes exactly where the draw is below the probability, and stays in the input's alphabet ({{0,1}} or {{-1,+1}})", node=fi.node)
     return 3
 
 
@@ -474,8 +476,9 @@ def digital_history_evaluated(repo: Repo, cname: str, prob_param: str, kind: str
     scope.__enter__()
     try:
         for p, sym in ((0.5, -7.0), (0.0, -7.0), (1.0, -7.0)) + (((0.5, float("inf")),) if kind == "bec" else ()):
-            for ia, ib in ((0, 2), (1, 0), (2, 1)):
-                for bip in ((False, False), (False, True), (True, False), (True, True)):
+            # a block that holds only the symbol 1 has one reading, {0,1} (no -1 in it); a block of zeros is written in either alphabet
+            for ia, ib, bips in ((0, 2, None), (1, 0, None), (2, 1, None), (3, 0, ((False, False), (False, True))), (4, 3, ((False, False), (True, False))), (0, 3, ((False, False), (True, False)))):
+                for bip in bips or ((False, False), (False, True), (True, False), (True, True)):
                     attrs = state(p, sym)
                     if attrs is None:
                         return None, "the constructor's attribute assignments could not be evaluated", 0
